@@ -550,6 +550,13 @@ impl<'de, 't, 'a> de::Deserializer<'de> for &'a mut Deserializer<'de, 't> {
                     self.state.clone(),
                     values.as_ref().iter().map(|variant| (variant, &args[0])),
                 )),
+            // A tuple is a record with the fields `_0`, `_1`, ...
+            (ValueRef::Data(data), &Type::Record(ref row)) => {
+                let iter = (0..data.len())
+                    .map(|i| data.get_variant(i).unwrap())
+                    .zip(row.row_iter().map(|field| &field.typ));
+                visitor.visit_seq(SeqDeserializer::new(self.state.clone(), iter))
+            }
             (ValueRef::Data(data), &Type::Variant(ref row)) => {
                 match row.row_iter().nth(data.tag() as usize) {
                     Some(field) => {
